@@ -62,7 +62,14 @@
 (*  spurious_nan_c   the true component is defined and w_c is NaN          *)
 (*  inf_expected_c   the true component is +-infinity (poles log 0,        *)
 (*                   log1p(-1), atanh(+-1), atan(+-i); infinite inputs,    *)
-(*                   table InfTable) and w_c is not that infinity          *)
+(*                   table InfTable = C99 Annex G where the value is the   *)
+(*                   limit along every path, e.g. sqrt(x + i inf) = inf +  *)
+(*                   i inf, log(-inf + iy) = inf + i pi, asinh(inf + iy) = *)
+(*                   inf + i0) and w_c is not that infinity; a finite      *)
+(*                   component of such a value (k pi/4, /ln b for log2 /   *)
+(*                   log10) is judged by the ulp clause; an infinite       *)
+(*                   component on the axis of a cut with a zero other      *)
+(*                   component (OnCutInf) accepts either side              *)
 (*  zero_expected_c  the true component is exactly 0 and w_c is not a zero *)
 (*  zero_sign_c      ... and w_c is the zero of the other sign where the   *)
 (*                   sign is demanded (see above)                          *)
@@ -74,12 +81,15 @@
 (*                   step beyond +-largest, so a correctly rounded         *)
 (*                   overflow is a lattice point) with the severity class  *)
 (*                   sev_le64 / sev_le1024 / sev_gt1024                    *)
-(* Notes (statistics): beyondT_c (target 3 ULP; 4 for sqrt, log1p, fails   *)
-(* certainly), undecided_c / undecidedT_c (a comparison still inconclusive *)
-(* after one widening 48->96 / 80->160 bits: never an alarm),              *)
-(* cut_other_side, zero_sign_free_c, not_judged_c (components of infinite  *)
-(* inputs / poles whose value Annex G does not make unambiguous: see       *)
-(* InfTable), nan_input.                                                   *)
+(* Notes (statistics; the names of Accuracy's frame with the component     *)
+(* suffix): beyond3_c (beyond the design target T certainly: T = 3 ULP, 4  *)
+(* for sqrt and log1p), undecided_c / undecided3_c (a comparison still     *)
+(* inconclusive after one widening 48->96 / 80->160 bits: never an alarm), *)
+(* cut_other_side, zero_sign_free_c (an exact zero whose sign is not       *)
+(* demanded), not_judged_c (components of infinite inputs / poles whose    *)
+(* value is not a path-independent limit: see InfTable), nan_input.        *)
+(* On a cut where BOTH readings fail the reading with fewer failing        *)
+(* clauses is reported.                                                    *)
 (* rateT (event fn = "rate")  k of n inputs drawn from one of the two      *)
 (* stated distributions exceeded the target in some component.  The        *)
 (* statement allows 0.1%; the clause fails only when k > RateThresholdC(n) *)
